@@ -1,6 +1,130 @@
-(* C03 — property theorems only (placeholder until the meta-theory files land). *)
-From GL Require Import Common.Bytes Lua.Syntax Lua.Values Lua.Eval Lua.Run Lua.EvalFacts.
+(* C03 — property theorems only. Variables of the reference evaluator are store cells; closures
+   capture cell references; function environments: for all programs fragments, states, fuel. *)
+From GL Require Import Common.Bytes Lua.Syntax Lua.Num Lua.Values Lua.Names Lua.Eval
+  Lua.ValuesFacts Lua.MonadFacts Lua.EvalStepFacts Lua.CallFacts Lua.ClosureFacts Lua.CatchFacts.
 
-Theorem adjust_spec : forall n vs, length (adjust n vs) = n /\ forall i, (i < n)%nat -> nth i (adjust n vs) VNil = nth i vs VNil.
-Proof. exact adjust_spec_lemma. Qed.
-Print Assumptions adjust_spec.
+Theorem alloc_cell_fresh : forall v s,
+  exists s', alloc_cell v s = Ret (length (cells s)) s' /\
+    ~ (length (cells s) < length (cells s))%nat /\
+    length (cells s') = S (length (cells s)) /\
+    nth (length (cells s)) (cells s') VNil = v /\
+    (forall i, (i < length (cells s))%nat -> nth i (cells s') VNil = nth i (cells s) VNil) /\
+    tabs s' = tabs s /\ clos s' = clos s /\ cos s' = cos s /\ uds s' = uds s /\
+    trace s' = trace s /\ cur s' = cur s /\ strmt s' = strmt s /\ dv s' = dv s.
+Proof. exact alloc_cell_fresh_lemma. Qed.
+Print Assumptions alloc_cell_fresh.
+
+Theorem write_cell_other : forall i v s,
+  exists s', write_cell i v s = Ret tt s' /\
+    (forall j, j <> i -> nth j (cells s') VNil = nth j (cells s) VNil) /\
+    ((i < length (cells s))%nat -> nth i (cells s') VNil = v) /\
+    length (cells s') = length (cells s) /\
+    tabs s' = tabs s /\ clos s' = clos s /\ cos s' = cos s /\ uds s' = uds s /\
+    trace s' = trace s /\ cur s' = cur s /\ strmt s' = strmt s /\ dv s' = dv s.
+Proof. exact write_cell_other_lemma. Qed.
+Print Assumptions write_cell_other.
+
+Theorem closure_captures_env : forall n cx ln en ps va body l1 l2 s,
+  let c := mkClo ps va body en (c_fenv (clo_of s (cx_clo cx))) l1 false in
+  let s' := with_clos s (clos s ++ [c]) in
+  eval_e (S n) cx ln en (EFunc ps va body l1 l2) s = Ret (VFun (length (clos s))) s' /\
+  clo_of s' (length (clos s)) = c /\
+  c_env (clo_of s' (length (clos s))) = en /\
+  c_fenv (clo_of s' (length (clos s))) = c_fenv (clo_of s (cx_clo cx)) /\
+  (forall r, (r < length (clos s))%nat -> clo_of s' r = clo_of s r) /\
+  cells s' = cells s /\ tabs s' = tabs s.
+Proof. exact closure_captures_env_lemma. Qed.
+Print Assumptions closure_captures_env.
+
+Theorem closures_share_cells : forall n m cx ln en ps va body l1 l2 ps' va' body' l1' l2' s s1 s2 v1 v2 x,
+  eval_e (S n) cx ln en (EFunc ps va body l1 l2) s = Ret v1 s1 ->
+  eval_e (S m) cx ln en (EFunc ps' va' body' l1' l2') s1 = Ret v2 s2 ->
+  exists r1 r2, v1 = VFun r1 /\ v2 = VFun r2 /\ r1 <> r2 /\
+    lookup (c_env (clo_of s2 r1)) x = lookup en x /\ lookup (c_env (clo_of s2 r2)) x = lookup en x.
+Proof. exact closures_share_cells_lemma. Qed.
+Print Assumptions closures_share_cells.
+
+Theorem local_read_is_cell : forall n cx ln en x c s, lookup en x = Some c ->
+  eval_e (S n) cx ln en (EVar x) s = Ret (nth c (cells s) VNil) s.
+Proof. exact local_read_lemma. Qed.
+Print Assumptions local_read_is_cell.
+
+Theorem numfor_fresh_cell_per_iteration : forall n cx en x i lim step body s,
+  numfor_continues i lim step = true ->
+  let c := length (cells s) in
+  let s1 := with_cells s (cells s ++ [VNum i]) in
+  numfor_loop (S n) cx en x i lim step body s =
+    bind (block n cx ((x, c) :: en) body [] 0 s1) (numfor_next n cx en x i lim step body) /\
+  ~ (c < length (cells s))%nat /\
+  nth c (cells s1) VNil = VNum i /\
+  (forall j, (j < length (cells s))%nat -> nth j (cells s1) VNil = nth j (cells s) VNil).
+Proof. exact numfor_fresh_cell_lemma. Qed.
+Print Assumptions numfor_fresh_cell_per_iteration.
+
+Theorem local_fresh_cells : forall n cx en ln xs es s vs s1,
+  localfunc_shape xs es = false ->
+  eval_list_with (eval_e n cx ln en) (eval_multi n cx ln en) es s = Ret vs s1 ->
+  exec (S n) cx en (SLocal ln xs es) s =
+  Ret (SigNormal, rev (combine xs (seq (length (cells s1)) (length xs))) ++ en)
+      (with_cells s1 (cells s1 ++ adjust (length xs) vs)).
+Proof. exact exec_local_lemma. Qed.
+Print Assumptions local_fresh_cells.
+
+(* each call gets fresh parameter cells (C02's bind_params_spec), restated here for closures *)
+Theorem call_fresh_cells : forall n fr r args s,
+  let c := nth r (clos s) dummy_clo in
+  call (S n) fr (VFun r) args s =
+  bind (block n (mkCtx (callee_varargs c args) fr r) (callee_env s c) (c_body c) [] 0 (callee_state s c args))
+       ret_of_signal.
+Proof. exact call_fun_setup_lemma. Qed.
+Print Assumptions call_fresh_cells.
+
+(* an error caught by pcall hands back the store of the error point: cell contents written by
+   the failed call (through captured variables) persist *)
+Theorem error_keeps_store : forall n fr f rest s e s',
+  call n (pframes fr) f rest s = Err e s' ->
+  builtin_call (S n) fr BPcall (f :: rest) s = Ret [VBool false; e] s'.
+Proof. exact pcall_of_err_lemma. Qed.
+Print Assumptions error_keeps_store.
+
+(* function environments *)
+Theorem fenv_inherited : forall n cx ln en ps va body l1 l2 s,
+  let c := mkClo ps va body en (c_fenv (clo_of s (cx_clo cx))) l1 false in
+  let s' := with_clos s (clos s ++ [c]) in
+  eval_e (S n) cx ln en (EFunc ps va body l1 l2) s = Ret (VFun (length (clos s))) s' /\
+  clo_of s' (length (clos s)) = c /\
+  c_env (clo_of s' (length (clos s))) = en /\
+  c_fenv (clo_of s' (length (clos s))) = c_fenv (clo_of s (cx_clo cx)) /\
+  (forall r, (r < length (clos s))%nat -> clo_of s' r = clo_of s r) /\
+  cells s' = cells s /\ tabs s' = tabs s.
+Proof. exact closure_captures_env_lemma. Qed.
+Print Assumptions fenv_inherited.
+
+Theorem free_name_uses_fenv : forall n cx ln en x s, lookup en x = None ->
+  eval_e (S n) cx ln en (EVar x) s =
+  index n (here cx ln) (VTab (c_fenv (clo_of s (cx_clo cx)))) (VStr x) 100 s.
+Proof. exact global_read_lemma. Qed.
+Print Assumptions free_name_uses_fenv.
+
+Theorem setfenv_changes_only_that_closure : forall n fr r t rest s,
+  let s' := with_clos s (set_nth (clos s) r (set_fenv_clo (clo_of s r) t)) in
+  builtin_call (S n) fr BSetFenv (VFun r :: VTab t :: rest) s = Ret [VFun r] s' /\
+  ((r < length (clos s))%nat -> clo_of s' r = set_fenv_clo (clo_of s r) t) /\
+  (forall r', r' <> r -> clo_of s' r' = clo_of s r') /\
+  c_env (set_fenv_clo (clo_of s r) t) = c_env (clo_of s r) /\
+  c_body (set_fenv_clo (clo_of s r) t) = c_body (clo_of s r) /\
+  cells s' = cells s /\ tabs s' = tabs s /\ cos s' = cos s.
+Proof. exact setfenv_changes_only_that_lemma. Qed.
+Print Assumptions setfenv_changes_only_that_closure.
+
+Theorem setfenv_then_free_name : forall n m fr r t rest s cx ln en x,
+  (r < length (clos s))%nat -> cx_clo cx = r -> lookup en x = None ->
+  exists s', builtin_call (S n) fr BSetFenv (VFun r :: VTab t :: rest) s = Ret [VFun r] s' /\
+    eval_e (S m) cx ln en (EVar x) s' = index m (here cx ln) (VTab t) (VStr x) 100 s'.
+Proof. exact setfenv_then_global_lemma. Qed.
+Print Assumptions setfenv_then_free_name.
+
+Theorem getfenv_reads_it : forall n fr r rest s,
+  builtin_call (S n) fr BGetFenv (VFun r :: rest) s = Ret [VTab (c_fenv (clo_of s r))] s.
+Proof. exact getfenv_lemma. Qed.
+Print Assumptions getfenv_reads_it.
